@@ -168,6 +168,9 @@ def binop(op, a: Val, b: Val, node=None) -> Val:
             if not isinstance(t, T.List):
                 raise Unsupported("list + list of unknown element type", node)
             return Val(t, z3.Concat(lift(a, t), lift(b, t)))
+    if opc is ast.Add and a.is_py and b.is_py and isinstance(a.py, tuple) and isinstance(b.py, tuple):
+        r_ = tuple(a.py) + tuple(b.py)  # two python-level tuples (of values)
+        return Val(PYOBJ, None, r_, True) if (_has_val(r_) or not r_) else Val.const(r_)
     # sets
     if isinstance(ta, T.Set) or isinstance(tb, T.Set):
         t = ta if isinstance(ta, T.Set) else tb
